@@ -873,13 +873,14 @@ func (c *otApplyContext) ligateInput(count int, matchPositions [maxContextLength
 }
 
 func (c *otApplyContext) recurse(subLookupIndex uint16) bool {
-	if c.nestingLevelLeft == 0 || c.recurseFunc == nil || c.buffer.maxOps <= 0 {
-		if c.buffer.maxOps <= 0 {
-			c.buffer.maxOps--
-			return false
-		}
-		c.buffer.maxOps--
+	if c.nestingLevelLeft == 0 || c.recurseFunc == nil {
+		return false
 	}
+	if c.buffer.maxOps <= 0 {
+		c.buffer.maxOps--
+		return false
+	}
+	c.buffer.maxOps--
 
 	c.nestingLevelLeft--
 	ret := c.recurseFunc(c, subLookupIndex)
